@@ -7,7 +7,13 @@
    holds).  A history is ANY list of micro steps: all interleavings of any number of workers
    and GetNow callers, every Save / Delete / ReadAll fault, a crash at every point.
    [hist_ok st0 ops] is the generator's contract: it never produces the same value twice nor
-   one that the storage already holds at start ([NoDup (st0 ++ gens ops)]). *)
+   one that the storage already holds at start ([NoDup (st0 ++ gens ops)]).
+
+   Persistent storage faults (a fault window on Save / Delete / ReadAll that lasts d calls or
+   forever, surviving restarts) only fix WHICH fault each micro step carries; the theorems below
+   quantify over every fault at every micro step, so they hold for every persistent fault
+   schedule ([driver_histories_are_histories]: a driver history with fault windows is the
+   micro-step history [hist w ops]). *)
 From Coq Require Import NArith List.
 From KV Require Import Common.Verdict Model.C39 Proofs.C39.
 Import ListNotations.
@@ -60,17 +66,37 @@ Theorem handed_out_is_gone_for_good :
 Proof. exact Proofs.C39.handed_out_is_gone_for_good. Qed.
 Print Assumptions handed_out_is_gone_for_good.
 
-(* the operations the driver performs on the real pool are such histories: running them is
-   running their expansion into micro steps, and they generate the same values *)
+(* the operations the driver performs on the real pool, under any state [w] of the storage's
+   fault windows, are such histories: running them is running their expansion into micro
+   steps, and they generate the same values *)
 Theorem driver_histories_are_histories :
-  forall (k : nat) (ops : list op) (s : mst),
-    fold_left (fun s o => fst (cstep k s o)) ops s = mrun k s (flat_map expand ops) /\
-    gens (flat_map expand ops) = flat_map op_gens ops.
+  forall (k : nat) (ops : list op) (w : faults) (s : mst),
+    crun k w s ops = mrun k s (hist w ops) /\
+    gens (hist w ops) = flat_map op_gens ops.
 Proof.
-  intros k ops s. split;
-    [exact (Proofs.C39.driver_histories_are_histories k ops s)|exact (Proofs.C39.gens_expand ops)].
+  intros k ops w s. split;
+    [exact (Proofs.C39.driver_histories_are_histories k ops w s)|exact (Proofs.C39.gens_hist ops w)].
 Qed.
 Print Assumptions driver_histories_are_histories.
+
+(* a fault window set to [Calls n] answers exactly the next n calls, one set to [Forever]
+   answers every later call *)
+Theorem window_lasts_exactly :
+  forall n m : nat,
+    active (ticks m (Calls (N.of_nat n))) = Nat.ltb m n /\
+    active (ticks m Forever) = true.
+Proof. exact Proofs.C39.window_lasts_exactly. Qed.
+Print Assumptions window_lasts_exactly.
+
+(* while the Delete window is open with an error, a GetNow that completes hands out nothing
+   (pool.go makes one Delete attempt and returns its error) *)
+Theorem failing_delete_hands_out_nothing :
+  forall (k : nat) (w : faults) (s : mst) (t : N) (f : del_fault) (x : N),
+    active (snd (fw_del w)) = true -> fst (fw_del w) <> DelOk ->
+    snd (cstep k w s (GetEnd t f)) <> RVal x /\
+    handed (fst (cstep k w s (GetEnd t f))) = handed s.
+Proof. exact Proofs.C39.failing_delete_hands_out_nothing. Qed.
+Print Assumptions failing_delete_hands_out_nothing.
 
 (* ---- the executable form used by the correspondence check is sound and holds of the model ---- *)
 Theorem spec_ok_sound :
@@ -80,6 +106,7 @@ Theorem spec_ok_sound :
     (forall x, In x (handed_obs (obs_list c)) -> In x (c_store0 c ++ case_gens c)) /\
     (forall ob, In ob (obs_list c) ->
        (o_count ob <= c_k c)%N /\ o_res ob <> RPanic /\ o_res ob <> RNil) /\
+    (forall ob, In ob (obs_list c) -> o_kept ob = false) /\
     (forall l1 ob l2, obs_list c = l1 ++ ob :: l2 ->
        forall x, In x (handed_obs (l1 ++ [ob])) -> ~ In x (o_store ob)).
 Proof. exact Proofs.C39.spec_ok_sound. Qed.
